@@ -31,13 +31,6 @@ Definition unique_ok (st : state) : bool :=
                   option_eqb N.eqb (alookup bytes_eqb (cid_of st c) (st_active st)) (Some c))
      end) (sessions st).
 
-Definition no_kill_timeout (ops : list op) : bool :=
-  forallb (fun o => match o with OSetupEnd true => false | _ => true end) ops.
-
-(* full statement (not proved here; evaluated on every observed state of the implementation) *)
-Definition C13_unique_state_statement : Prop :=
-  forall cap ops, no_kill_timeout ops = true -> unique_ok (run_state (init cap) ops) = true.
-
 (* handover *)
 Definition handed_over (st st' : state) (id : bytes) (c : conn) : bool :=
   match alookup bytes_eqb id (st_stored st), alookup bytes_eqb id (st_stored st') with
